@@ -1,0 +1,13 @@
+//go:build verif
+
+package vectorstore
+
+// Exported wrappers used by the verification harness in /verif (build tag
+// verif only). They add no behaviour.
+
+// VerifBinaryEncode runs the binary quantizer's encode with the given
+// per-position threshold.
+func VerifBinaryEncode(threshold []float32, vector []float32) []uint64 {
+	bq := &binaryQuantizer{threshold: threshold}
+	return bq.encode(vector)
+}
